@@ -1,8 +1,22 @@
 /-
   C02 — distributed sync returns, on every rank, the merge of all ranks' metrics.
-  (first part: the short-circuit and the witnesses; the general theorems follow below)
+
+  Model: TE/Model/Sync.lean (`getSyncedMetric`, `getSyncedCollection` on top of `syncStates`).
+  A metric enters through `MetricI S` (`prep` = `_prepare_for_merge_state`, `sd` = `state_dict`,
+  `mrg` = `merge_state` over pseudo-metrics, i.e. over state dicts).  The theorems quantify over
+    * the group `g` (`IsGroup g n`: any list of global ranks without repetition — whole world,
+      sub-group, group without global rank 0, any order) and hence every group size `n`;
+    * the metric interface `M` and every per-rank metric state `s : Nat → S` (any update history);
+    * the junk content of `torch.empty`; the `dst` field of the caller's environment (ignored);
+    * the order in which members arrive at each rendezvous (`C02_schedule_indep`).
+  Hypothesis `Syncable` (TE/Spec/Sync.lean): all members hold the same state names with the same
+  state kinds, tensors of one state have one ndim, list elements are homogeneous, dict states have
+  equal key sets — what "metrics of the same type" gives for every torcheval metric whose state
+  shapes do not depend on the data seen.  Outside it the statement is FALSE for the code as it is:
+  witness theorems at the end (known findings).
 -/
-import TE.Lemmas.SyncSend
+import TE.Lemmas.SyncExample
+import TE.Lemmas.SyncSched
 namespace TE.C02
 open TE TE.Sync TE.Spec.Sync
 
@@ -20,7 +34,222 @@ theorem C02_ws1_collection (M : MetricI S) (init : Bool) (e : Env) (ms : List (S
   rcases h with h | h <;> simp [getSyncedCollection, h]
 
 /-- non-vacuity / the world of one runs to completion with the input as result. -/
-example (M : MetricI Nat) : (runWorldL [0] [getSyncedMetric M true ⟨0, 1, 1, none, 0⟩ 7]).out = .ok [7] := by
+example (M : MetricI Nat) : (runWorldL [3] [getSyncedMetric M true ⟨0, 1, [3], none, 0⟩ 7]).out = .ok [7] := by
   rw [C02_ws1 M true _ 7 (Or.inr rfl)]; rfl
+
+/-! ### the synced metric is the local rank-order merge -/
+
+/-- `merge_state` as the toolkit calls it: the other members' metrics enter as pseudo-metrics, i.e. as
+    their state dicts after the round trip `state_dict()` → gather → `type("", (), state_dict)`;
+    `recon` is that round trip: the same map from state names to values (`recon_same_map`). -/
+def pseudoMerge (M : MetricI S) (a : S) (os : List S) : Except Err S :=
+  M.mrg a (os.map fun o => recon (M.sd o))
+
+/-- the local merge the property statement names: `clone(m_r).merge_state([m_j | j ≠ r, ascending])`
+    after every member's `_prepare_for_merge_state()`. -/
+def localMerge (M : MetricI S) (n : Nat) (s : Nat → S) (r : Nat) : Except Err S :=
+  merged (pseudoMerge M) n (fun j => M.prep (s j)) r
+
+/-- `recon` is the identity on state dicts read as maps: under every state name the same value,
+    a dict value being listed by sorted key (`C15.dict_same_map`). -/
+theorem recon_same_map (sd : List (String × TState)) (q : String) :
+    lookupKey q (recon sd) = (lookupKey q sd).map canon :=
+  recon_lookup sd q
+
+/-- **`C02_sync_is_local_merge`**: for every group of at least two members, under `Syncable`, the
+    whole run of `get_synced_metric` — collectives included — has the outcome of the members simply
+    computing their local rank-order merges: no mismatch, no hang, and whatever `merge_state` does
+    locally (return or raise) is what the synced call does on that member.  A metric without any
+    registered state is included (`Syncable.nil`; `reg_stateless_metric`). -/
+theorem C02_sync_is_local_merge (M : MetricI S) (g : List Nat) (n : Nat) (hg : IsGroup g n) (hn : 2 ≤ n)
+    (dst : Option Nat) (junk : Nat → Q) (s : Nat → S)
+    (hS : Syncable n fun i => traversal [(tmpName, M.sd (M.prep (s i)))]) :
+    (runWorldL g ((List.range n).map fun i => getSyncedMetric M true (envOf g n dst junk i) (s i))).out
+      = (runWorldL g ((List.range n).map fun i => liftE (localMerge M n s i))).out := by
+  rw [out_getSyncedMetric M g n hg hn dst junk s hS]
+  congr 2
+  apply List.map_congr_left
+  intro i _
+  simp [localMerge, merged, pseudoMerge, mergeOf, List.map_map, Function.comp_def]
+
+/-- **`C02_sync_ok`**: …so when the local merges return (`hm`), every call returns and member `r`
+    obtains exactly its local rank-order merge `R r`. -/
+theorem C02_sync_ok (M : MetricI S) (g : List Nat) (n : Nat) (hg : IsGroup g n) (hn : 2 ≤ n)
+    (dst : Option Nat) (junk : Nat → Q) (s : Nat → S)
+    (hS : Syncable n fun i => traversal [(tmpName, M.sd (M.prep (s i)))])
+    (R : Nat → S) (hm : ∀ r, r < n → localMerge M n s r = .ok (R r)) :
+    (runWorldL g ((List.range n).map fun i => getSyncedMetric M true (envOf g n dst junk i) (s i))).out
+      = .ok ((List.range n).map R) := by
+  rw [C02_sync_is_local_merge M g n hg hn dst junk s hS]
+  exact yields_liftE_ok g (List.range n) _ R fun i hi => hm i (List.mem_range.mp hi)
+
+/-- …and when `merge_state` raises locally on some member, the synced run ends with a Python exception
+    on a member (never with a collective mismatch). -/
+theorem C02_sync_merge_raises (M : MetricI S) (g : List Nat) (n : Nat) (hg : IsGroup g n) (hn : 2 ≤ n)
+    (dst : Option Nat) (junk : Nat → Q) (s : Nat → S)
+    (hS : Syncable n fun i => traversal [(tmpName, M.sd (M.prep (s i)))])
+    (r : Nat) (hr : r < n) (e : Err) (hm : localMerge M n s r = .error e) :
+    ∃ e', (runWorldL g ((List.range n).map fun i => getSyncedMetric M true (envOf g n dst junk i) (s i))).out
+      = .error (.crashed e') := by
+  rw [C02_sync_is_local_merge M g n hg hn dst junk s hS]
+  exact crashed_liftE g (List.range n) _ r e (List.mem_range.mpr hr) hm
+
+/-- the law a metric's `merge_state` has to satisfy for the round trip to be invisible: it reads the
+    other metrics' states by name and dict states by key (never by position / insertion order). -/
+def MergeReadsMaps (M : MetricI S) : Prop :=
+  ∀ (a : S) (os : List (List (String × TState))), M.mrg a (os.map recon) = M.mrg a os
+
+/-- under `MergeReadsMaps` the synced metric is the merge of the members' own state dicts. -/
+theorem C02_sync_ok_direct (M : MetricI S) (hlaw : MergeReadsMaps M) (g : List Nat) (n : Nat) (hg : IsGroup g n)
+    (hn : 2 ≤ n) (dst : Option Nat) (junk : Nat → Q) (s : Nat → S)
+    (hS : Syncable n fun i => traversal [(tmpName, M.sd (M.prep (s i)))])
+    (R : Nat → S)
+    (hm : ∀ r, r < n → merged (fun a os => M.mrg a (os.map M.sd)) n (fun j => M.prep (s j)) r = .ok (R r)) :
+    (runWorldL g ((List.range n).map fun i => getSyncedMetric M true (envOf g n dst junk i) (s i))).out
+      = .ok ((List.range n).map R) := by
+  apply C02_sync_ok M g n hg hn dst junk s hS R
+  intro r hr
+  rw [← hm r hr]
+  simp only [localMerge, merged, pseudoMerge]
+  have := hlaw (M.prep (s r)) (((others n r).map fun j => M.prep (s j)).map M.sd)
+  rw [List.map_map] at this
+  exact this
+
+/-- the metric used in the examples and witnesses: its state IS its state dict; `merge_state` appends,
+    per other metric, that metric's states. -/
+def collectM : MetricI (List (String × TState)) where
+  prep := id
+  sd := id
+  mrg s os := .ok (s ++ os.flatten)
+
+/-- non-vacuity of `C02_sync_ok`: three ranks of the sub-group `[5, 0, 3]`, one of them idle, uneven
+    shapes, every state kind (`exStates`, TE/Lemmas/SyncExample.lean). -/
+example : IsGroup [5, 0, 3] 3 ∧
+    Syncable 3 (fun i => traversal [(tmpName, collectM.sd (collectM.prep (exStates i)))]) ∧
+    ∀ r, r < 3 → ∃ R, localMerge collectM 3 exStates r = .ok R :=
+  ⟨⟨by decide, rfl⟩, ex_syncable tmpName, fun _ _ => ⟨_, rfl⟩⟩
+
+/-! ### the collection form -/
+
+/-- **`C02_sync_ok_collection`**: `get_synced_metric_collection` on a dict of metrics: under `Syncable`
+    (of the whole collection in traversal order) the run has the outcome of every member merging,
+    per own metric `k`, the other members' pseudo-metrics of name `k` in rank order
+    (`mergeCollOf`, TE/Lemmas/SyncToolkit.lean). -/
+theorem C02_sync_ok_collection (M : MetricI S) (g : List Nat) (n : Nat) (hg : IsGroup g n) (hn : 2 ≤ n)
+    (dst : Option Nat) (junk : Nat → Q) (ms : Nat → List (String × S))
+    (hS : Syncable n fun i => traversal (collOf M (ms i)))
+    (R : Nat → List (String × S)) (hm : ∀ r, r < n → mergeCollOf M n ms r = .ok (R r)) :
+    (runWorldL g ((List.range n).map fun i => getSyncedCollection M true (envOf g n dst junk i) (ms i))).out
+      = .ok ((List.range n).map R) := by
+  rw [out_getSyncedCollection M g n hg hn dst junk ms hS]
+  exact yields_liftE_ok g (List.range n) _ R fun i hi => hm i (List.mem_range.mp hi)
+
+/-- …where the pseudo-metric for metric `k` of member `j` is `recon` of that metric's state dict,
+    the names of a collection being distinct (a Python dict). -/
+theorem C02_collection_pseudo_metric (M : MetricI S) (ms : List (String × S)) (hnd : (ms.map (·.1)).Nodup)
+    (k : String) (s : S) (hk : lookupKey k ms = some s) :
+    statesOf k (sentRow (collOf M ms)) = recon (M.sd (M.prep s)) := by
+  apply statesOf_sentRow
+  · simpa [collOf, prepAll, List.map_map, Function.comp_def] using hnd
+  · have : ∀ l : List (String × S), lookupKey k l = some s →
+        lookupKey k ((l.map fun (k, s) => (k, M.prep s)).map fun (k, s) => (k, M.sd s)) = some (M.sd (M.prep s)) := by
+      intro l
+      induction l with
+      | nil => intro h; simp [lookupKey] at h
+      | cons a l ih =>
+        obtain ⟨a1, a2⟩ := a
+        intro h
+        simp only [lookupKey, List.map_cons] at h ⊢
+        by_cases hak : (a1 == k) = true
+        · simp only [hak, if_true, Option.some.injEq] at h ⊢; rw [h]
+        · simp only [hak, Bool.false_eq_true, if_false] at h ⊢; exact ih h
+    exact this ms hk
+
+/-! ### schedule independence -/
+
+/-- **`C02_schedule_indep`**: in the semantics in which the members ARRIVE at each rendezvous in any
+    order (`Step`: `arrive i` for any member that sits at a collective; `complete` only once all
+    members have arrived), every maximal run from the initial configuration ends in a configuration
+    whose `result` is the outcome of the lock-step execution — for any programs whatsoever, in
+    particular for `get_synced_metric` / `sync_states` on every rank. -/
+theorem C02_schedule_indep {R : Type} (g : List Nat) (ps : List (Prog R)) (c : Config R)
+    (hrun : Steps g (Config.init ps) c) (hfinal : Final g c) :
+    c.result g = (runWorldL g ps).out :=
+  maximal_run_result g ps c hrun hfinal
+
+/-- …and there are no infinite runs: the step relation is well-founded from the initial configuration
+    (every arrival order leads, after finitely many steps, to a configuration in which nothing moves). -/
+theorem C02_schedule_terminates {R : Type} (g : List Nat) (ps : List (Prog R)) :
+    Acc (fun c' c => Step g c c') (Config.init ps) :=
+  acc_init g ps
+
+/-- non-vacuity: two members arriving in the order 1, 0 at an `all_gather_object`. -/
+example :
+    let p : Nat → Prog (List Obj) := fun i => allGatherObj (.int i)
+    let c1 : Config (List Obj) := ⟨[p 0, p 1], [1]⟩
+    let c2 : Config (List Obj) := ⟨[p 0, p 1], [0, 1]⟩
+    let c3 : Config (List Obj) := ⟨[.done [.int 0, .int 1], .done [.int 0, .int 1]], []⟩
+    Step [0, 1] (Config.init [p 0, p 1]) c1 ∧ Step [0, 1] c1 c2 ∧ Step [0, 1] c2 c3 ∧ Final [0, 1] c3 := by
+  refine ⟨.arrive _ 1 _ _ rfl (by simp [Config.init]), .arrive _ 0 _ _ rfl (by simp), ?_, ?_⟩
+  · exact .complete ⟨_, _⟩ [.allGatherObj (.int 0), .allGatherObj (.int 1)] _ _
+      (fun i hi => by simp at hi; match i, hi with | 0, _ => simp | 1, _ => simp) rfl rfl
+  · intro c' h
+    cases h with
+    | arrive i q k hi _ =>
+      match i with
+      | 0 => simp at hi
+      | 1 => simp at hi
+      | _ + 2 => simp at hi
+    | complete qs r rs _ hq _ => simp [reqsOf] at hq
+
+/-! ### witnesses: outside `Syncable` the statement fails (known findings), through the toolkit entry -/
+
+private def tf (sh : List Nat) (d : List Q) : Tensor := ⟨.f32, sh, d⟩
+private def env (i n : Nat) (g : List Nat) : Env := ⟨i, n, g, none, 0⟩
+
+/-- ¬(equal ndim across ranks): a state that is 0-dim on the rank that never updated and 1-dim on the
+    other (shape-by-first-update states): collective mismatch — on real gloo an abort
+    (finding C02|send_tensors|ndim-0-vs-1-across-ranks|collective-mismatch). -/
+theorem wit_sync_ndim_mismatch :
+    (runWorldL [0, 1] [getSyncedMetric collectM true (env 0 2 [0, 1]) [("sum", .tensor (tf [] [0]))],
+                       getSyncedMetric collectM true (env 1 2 [0, 1]) [("sum", .tensor (tf [2] [1, 2]))]]).out
+      = .error .dtypeShapeDiffers := by decide +kernel
+
+/-- ¬(equal key sets): the run completes, but rank 0 merges rank 1's `{"b": t}` as if it were `{"a": t}`
+    — not what the local merge gives (finding C02|_sync_dict_tensor_states|unequal-keys|re-keyed-with-local-keys). -/
+theorem wit_sync_unequal_keys :
+    (runWorldL [0, 1] [getSyncedMetric collectM true (env 0 2 [0, 1]) [("tab", .dict [("a", tf [1] [1])])],
+                       getSyncedMetric collectM true (env 1 2 [0, 1]) [("tab", .dict [("b", tf [1] [2])])]]).out
+      = .ok [[("tab", .dict [("a", tf [1] [1])]), ("tab", .dict [("a", tf [1] [2])])],
+             [("tab", .dict [("b", tf [1] [2])]), ("tab", .dict [("b", tf [1] [1])])]]
+    ∧ localMerge collectM 2 (fun i => match i with | 0 => [("tab", .dict [("a", tf [1] [1])])] | _ => [("tab", .dict [("b", tf [1] [2])])]) 0
+      = .ok [("tab", .dict [("a", tf [1] [1])]), ("tab", .dict [("b", tf [1] [2])])] := by decide +kernel
+
+/-- ¬(homogeneous list elements) with a shorter rank: the dummy copies only the first element's shape
+    (finding C02|_sync_list_tensor_states|short-rank-dummy|shape-dtype-of-first-element). -/
+theorem wit_sync_dummy_first_element_only :
+    (runWorldL [0, 1] [getSyncedMetric collectM true (env 0 2 [0, 1]) [("items", .list [tf [2] [1, 1], tf [1, 1] [3]])],
+                       getSyncedMetric collectM true (env 1 2 [0, 1]) [("items", .list [])]]).out
+      = .error .dtypeShapeDiffers := by decide +kernel
+
+/-! ### regression: the repaired stateless-metric defect, on the input that used to exhibit it -/
+
+/-- a metric without any registered state: no collective is issued, every member gets an empty
+    pseudo-metric per other member and `get_synced_metric` returns the local merge (was: `KeyError: 'tmp'`,
+    `.error (.crashed .other)`); it is an instance of `C02_sync_ok` (`Syncable.nil`). -/
+theorem reg_stateless_metric :
+    (runWorldL [0, 1] [getSyncedMetric collectM true (env 0 2 [0, 1]) [], getSyncedMetric collectM true (env 1 2 [0, 1]) []]).out
+      = .ok [[], []]
+    ∧ (runWorldL [0, 1] [getSyncedMetric collectM true (env 0 2 [0, 1]) [], getSyncedMetric collectM true (env 1 2 [0, 1]) []]).rounds = []
+    ∧ localMerge collectM 2 (fun _ => []) 0 = .ok []
+    ∧ Syncable 2 (fun _ => traversal [(tmpName, collectM.sd (collectM.prep []))]) :=
+  ⟨by decide +kernel, by decide +kernel, by decide +kernel, .nil fun _ _ => rfl⟩
+
+/-- …and in a collection: a stateless metric next to an ordinary one (was: `KeyError: 'b'`). -/
+theorem reg_stateless_in_collection :
+    (runWorldL [0, 1] [getSyncedCollection collectM true (env 0 2 [0, 1]) [("a", [("n", .int 1)]), ("b", [])],
+                       getSyncedCollection collectM true (env 1 2 [0, 1]) [("a", [("n", .int 2)]), ("b", [])]]).out
+      = .ok [[("a", [("n", .int 1), ("n", .int 2)]), ("b", [])], [("a", [("n", .int 2), ("n", .int 1)]), ("b", [])]] := by
+  decide +kernel
 
 end TE.C02
